@@ -24,6 +24,9 @@ scenario `fstfuzzy:<Lq>:<D>:<R>:<L1>[:<L2>]`  the real `FstDictionary::fuzzy_mat
     a contract (the DFA search yields, in key order, exactly the indexed words within distance D of its query, with exact
     distances): results are dictionary words with a true distance (to the query or its lower-case form) within the bound,
     ordered, distinct, capped, and complete for lower-case queries.
+scenario `fstfuzzy2:...`  the same after an earlier `fuzzy_match` with a distance budget larger by 2 on the same FstDictionary and
+    thread: `build_dfa` and its thread-local store of automaton builders are real code (the store is created by its own
+    initialiser once per path and persists), so what is decided includes that the second look-up is not affected by the first.
 scenario `fuzzy:<Lq>:<D>:<R>:<L1>[:<L2>]`  one MutableDictionary holding one or two words, `fuzzy_match(query, D, R)`: every
     result is one of the words, its distance is min(lev(query, w), lev(lower(query), w)) <= D, results are ordered by
     distance, distinct and at most R, and (R >= number of words) every word within distance D of a lower-case query is
@@ -320,7 +323,8 @@ def run(mir_path, scenario, src_dir):
                     claims.append((z3.Or(*[z3.And(seq_eq(low(w_), low(q)), seq_eq(got, w_)) for w_, _m in all_words]),
                                    "MergedDictionary (built with add_dictionary)::get_correct_capitalization_of returns something else than a stored spelling of the word"))
                 r = call(MG, "word_count", cm) if [n for n in raw if n.endswith("::word_count") and it.impl_type(n) == MG] else None
-            elif kind == "fstfuzzy":
+            elif kind in ("fstfuzzy", "fstfuzzy2"):
+                warm = 2 if kind == "fstfuzzy2" else 0
                 # FstDictionary::fuzzy_match with the fst crate behind a contract: `build_dfa(D, query)` + `search_with_state` +
                 # `stream_distances_vec` yield, in key (lexicographic) order, exactly the (index, distance) pairs of the indexed
                 # words whose Levenshtein distance to that query is <= D, with the exact distance. Everything after that - the zip of
@@ -344,8 +348,13 @@ def run(mir_path, scenario, src_dir):
                 words_vec = VecObj([Tup([VecObj([Int(c, 32) for c in w]), md]) for w, md in zip(wds, metas)])
                 cf = Cell(Adt(FS, [BoxRef(cfull), "fst-map", words_vec]))
 
-                def build_dfa(it_, callee, args):
-                    return Adt("DFA", [args[0], deref(args[1])])
+                # `build_dfa` itself (the thread-local builder store) is real code; the levenshtein_automata crate is the contract:
+                # a builder made for distance d builds automata that accept exactly the words within d of the query
+                def builder_new(it_, callee, args):
+                    return Adt("LevenshteinAutomatonBuilder", [args[0]])
+
+                def builder_build(it_, callee, args):
+                    return Adt("DFA", [deref(args[0]).fields[0], deref(args[1])])
 
                 def search(it_, callee, args):
                     return args[1]
@@ -360,12 +369,18 @@ def run(mir_path, scenario, src_dir):
                             out_.append(Tup([Int(k, 64), Int(dist, 8)]))
                     return VecObj(out_)
 
-                it.resolve_map[r"^(fst_dictionary::)?build_dfa$"] = build_dfa
+                it.resolve_map[r"^LevenshteinAutomatonBuilder::new$"] = builder_new
+                it.resolve_map[r"^LevenshteinAutomatonBuilder::build_dfa$"] = builder_build
                 it.resolve_map[r"^fst::Map::<.*>::search_with_state::<"] = search
                 it.resolve_map[r"as IntoStreamer<'_>>::into_stream$"] = lambda it_, c_, a: a[0]
                 it.resolve_map[r"^(fst_dictionary::)?stream_distances_vec$"] = stream_distances
                 ds = [(lev(q, w), lev(low(q), w)) for w in wds]
                 q_is_lower = z3.And(*[is_lower(c) for c in q]) if q else z3.BoolVal(True)
+                if warm:
+                    # history: an earlier look-up with a larger distance budget on the same thread (thread-local builder store)
+                    q0 = word("p", lq)
+                    ws["earlier_query"] = q0
+                    call(FS, "fuzzy_match", cf, q_slice(q0), Int(D + warm, 8), Int(R, 64))
                 out = call(FS, "fuzzy_match", cf, q_slice(q), Int(D, 8), Int(R, 64))
                 res = [c.v for c in out.elems]
                 ty = FS
@@ -456,7 +471,7 @@ def run(mir_path, scenario, src_dir):
             ok, model = ctx.valid(claim, nice)
             if not ok:
                 d = describe(model, ws)
-                if kind in ("fuzzy", "fstfuzzy"):
+                if kind in ("fuzzy", "fstfuzzy", "fstfuzzy2"):
                     d.update(max_distance=dims[1], max_results=dims[2])
                 if kind == "union":
                     d["children"] = [[d[t] for t in ch] for ch in result["children_tags"][:len(parts) - 2]]
